@@ -26,11 +26,18 @@ type c09Replay struct {
 	Names         []string `json:"names"`
 	Exts          []string `json:"exts"`
 	Route         string   `json:"route"` // output-dry | mkdir-md-dry | mkdir-root-dry
+	Extra         string   `json:"extra_options,omitempty"`
 }
 
-func c09Dry(route, doc string, root *model.Node, exts []string, target string) (out string, err error, pan string) {
+// options that do not concern a Mkdir dry run
+var c09Extras = []string{"json", "yaml", "toml", "noiter", "strict", "nil", "strict,toml,nil"}
+
+func c09Dry(route, doc string, root *model.Node, exts []string, target string, extra ...string) (out string, err error, pan string) {
 	var buf bytes.Buffer
 	opts := []gtree.Option{gtree.WithDryRun(), gtree.WithFileExtensions(exts), gtree.WithTargetDir(target)}
+	if len(extra) > 0 {
+		opts = append(opts, extraOpts(extra[0], "")...)
+	}
 	pan = sut.Guard(func() {
 		switch route {
 		case "output-dry":
@@ -65,12 +72,20 @@ func c09Case(c *rep.Ctx, r c09Replay) {
 	if r.Route == "mkdir-root-dry" {
 		root = f[0]
 	}
-	out, err, pan := c09Dry(r.Route, doc, root, r.Exts, target)
+	extsGiven := append([]string{}, r.Exts...)
+	out, err, pan := c09Dry(r.Route, doc, root, r.Exts, target, r.Extra)
 	after := fsx.Snapshot(j.Root)
 	c.Eval()
 	c.Trans(1)
 	size := len(r.Depth)*100 + len(strings.Join(r.Names, "")) + len(r.Exts)
-	desc := fmt.Sprintf("route=%s doc=%q exts=%q missingTarget=%v", r.Route, doc, r.Exts, r.MissingTarget)
+	desc := fmt.Sprintf("route=%s doc=%q exts=%q missingTarget=%v", r.Route, doc, extsGiven, r.MissingTarget)
+	if r.Extra != "" {
+		desc += " extra options=" + r.Extra
+	}
+	if strings.Join(extsGiven, "\x00") != strings.Join(r.Exts, "\x00") {
+		c.Violation("C09|callers-extension-list-modified|"+r.Route, fmt.Sprintf("%s: the list passed to WithFileExtensions is %q after the call", desc, r.Exts), size, r)
+		r.Exts = extsGiven
+	}
 	if pan != "" {
 		c.Violation("C09|panic|"+r.Route, desc+": "+pan, size, r)
 		return
@@ -162,6 +177,11 @@ func init() {
 					if len(d) <= 3 {
 						c09Case(c, c09Replay{Kind: "c09", Depth: append([]int{}, d...), Names: names, Exts: ex, Route: rt, MissingTarget: true})
 					}
+					if len(d) <= 2 && rt != "output-dry" {
+						for _, x := range c09Extras {
+							c09Case(c, c09Replay{Kind: "c09", Depth: append([]int{}, d...), Names: names, Exts: ex, Route: rt, Extra: x})
+						}
+					}
 				}
 			}
 		}
@@ -183,6 +203,8 @@ func init() {
 					ex := c06Exts
 					if n >= 4 {
 						ex = c06Exts[:4]
+					} else {
+						ex = append(append([][]string{}, ex...), c06DupExts...)
 					}
 					run(d, names, ex)
 				})
